@@ -17,6 +17,11 @@ for q in QUERIES:
     if q.func == "harness_sign":
         q.unreachable = ["secp256k1_ecmult_strauss_batch", "secp256k1_ecmult_pippenger_batch"]   # 8-argument functions CBMC lists as candidates for the nonce function pointer
 QUERIES.append(Query("extraparams_magic", S, "harness_magic", unwind=66, timeout=600, desc="sign_custom rejects every wrong extraparams magic"))
+_t = Query("t_sign_verify_order13", "T/h_t.c", "harness_schnorr", defs=["T_SCHNORR"], unwind=140, timeout=1800, mem_gb=8, allow=["secp256k1_scalar_inverse", "secp256k1_scalar_inverse_var"],
+           desc="engine T (order-13 subgroup of the repository's exhaustive-test configuration, group layer = index arithmetic over a table generated and validated from the real code at check time, compression function uninterpreted): keypair_create -> schnorrsig_sign32 -> keypair_xonly_pub -> schnorrsig_verify accepts, for all 96 input bytes",
+           bounds="group order 13; all key / message / aux bytes")
+_t.gen_table = 13
+QUERIES.append(_t)
 LEVEL_TEXT = ("Bounded model checking of the real schnorrsig module at real width against a reference written from BIP-340, with the SHA-256 compression function and scalar multiplication "
               "uninterpreted and curve results free: decides byte layout of both tagged hashes for each message-length class, range checks, parity negations, aux handling and failure masking for all inputs.")
 ASSUMPTIONS = ["ecmult / ecmult_gen results are free points (group law is C05's subject)", "SHA-256 compression uninterpreted (holds for every compression function); tag midstates are compared with from-scratch tagged hashing in C05's concrete midstate query",
@@ -24,6 +29,6 @@ ASSUMPTIONS = ["ecmult / ecmult_gen results are free points (group law is C05's 
                "x-only / keypair objects have canonical coordinates (what the library stores)"]
 
 MANIFEST_ENTRY = {
-    "text": "Bounded model checking of the real schnorrsig module at real width against a reference written from BIP-340 (own FIPS padding model, uninterpreted compression shared with the library code, free curve results, uninterpreted scalar mul): verify == BIP-340 Verify structure for all 64-byte signatures incl. r>=p, s>=n, odd/infinite R; sign == BIP-340 Sign byte layout (aux masking, NULL aux == zero aux, tagged nonce and challenge hashes, parity negations, masking on failure) for message-length classes 0,32,33,301 (thorough: more, up to 1001).",
+    "text": "Engine T: in the order-13 group (table model generated and validated from the real code at check time, uninterpreted compression function) keypair_create -> sign32 -> verify accepts for all input bytes. Bounded model checking of the real schnorrsig module at real width against a reference written from BIP-340 (own FIPS padding model, uninterpreted compression shared with the library code, free curve results, uninterpreted scalar mul): verify == BIP-340 Verify structure for all 64-byte signatures incl. r>=p, s>=n, odd/infinite R; sign == BIP-340 Sign byte layout (aux masking, NULL aux == zero aux, tagged nonce and challenge hashes, parity negations, masking on failure) for message-length classes 0,32,33,301 (thorough: more, up to 1001).",
     "note": "Not covered: group-law correctness of ecmult/ecmult_gen; tag midstate constants are compared with from-scratch tagged hashing only in C05's concrete midstate query; message lengths outside the listed classes rest on C05's sha256_write induction; 64-bit limbs only. Trusted: CBMC/kissat, stubs, the reference in harness/C02 + common/ref_sha.h.",
 }
